@@ -522,6 +522,12 @@ fn build_sim_ix(fx: &Fix, w: &World, t: &mut Toks) -> Ix {
             let s = fx.wallet(t.u64());
             ixs::lending_account_end_flashloan(a, s, rem_for(w, &a, &[]))
         }
+        "EFN" => {
+            // end_flashloan WITHOUT the bank / oracle remaining accounts
+            let a = fx.acct(t.u64());
+            let s = fx.wallet(t.u64());
+            ixs::lending_account_end_flashloan(a, s, vec![])
+        }
         "EFX" => {
             // end_flashloan of account a with another marginfi account riding along as a trailing remaining account
             let a = fx.acct(t.u64());
